@@ -149,6 +149,17 @@ def check(rep, tier, seed):
         if not tr and not enc_part.startswith("ok ") and enc_part != "err UnsupportedCharacter":
             bad.append((l, a, "a constructor that is not transient is refused"))
     rep.coverage["transient_constructor_cases_static"] = len(tcs)
+    # concrete container types (byte arrays of 127-1025 bytes, arrays of 63-127 elements, ...): encoding returns bytes, never a panic
+    names = [x for x in C.run([harness, "monotypes"], timeout=120).stdout.split("\n") if x.strip()]
+    ml = []
+    for nm in names:
+        t = G.ty_of_text(nm)
+        for _ in range(3 if tier == "quick" else 60):
+            ml.append(f"mrt {nm} {G.gen_value(rng, t)} -")
+    for l, a in zip(ml, C.run_sharded(harness, "static", ml, C.workdir("C17m"), "mono", shards=8)):
+        if a.startswith("panic") or a.startswith("abort"):
+            bad.append((l[:300], a[:300], "encoding a value of a concrete container type panics"))
+    rep.coverage["concrete_types_encoded"] = len(ml)
     # the stream is a HISTORY per process (failing encodings interleaved with succeeding ones): bytes that differ from
     # the reference encoding of the value are bytes handed over from another call
     for c, a, m in zip(cases, impl, mod):
